@@ -27,7 +27,8 @@ for line in open(SUM):
     e["demo_clean"], e["demo_patched"] = c0, c1
     e["runs"].append({"after_strengthening": bool(rerun), "checks": checks})
 for (prop, k), e in sorted(rows.items()):
-    src = f"/tmp/seed/{prop}/_seed/{k}" if int(k) <= 3 else f"/tmp/seed2/{prop}/_seed/{int(k) - 3}"
+    src = (f"/tmp/seed/{prop}/_seed/{k}" if int(k) <= 3 else
+           f"/tmp/seed2/{prop}/_seed/{int(k) - 3}" if int(k) <= 6 else f"/tmp/seed4/{prop}/_seed/{int(k) - 6}")
     if not os.path.exists(f"{src}/patch.diff"):
         continue
     dst = f"/verif/seeded/{prop}-{k}"
